@@ -9,7 +9,9 @@ def guards_validators(f):
 
 def guards_parser_rules(f):
     fl = f.span.file or ''
-    return fl in ('slicec/src/parsers/slice/grammar.rs', 'slicec/src/parsers/mod.rs', 'slicec/src/patchers/mod.rs', 'slicec/src/patchers/type_ref_patcher.rs') and not f.generated
+    # unescape_string_literal and its closure are not a language rule (they report nothing): what they compute is decided by rule C02.8c
+    return fl in ('slicec/src/parsers/slice/grammar.rs', 'slicec/src/parsers/mod.rs', 'slicec/src/patchers/mod.rs', 'slicec/src/patchers/type_ref_patcher.rs') and not f.generated \
+        and '::unescape_string_literal' not in f.path
 
 
 def guards_type_patcher(f):
